@@ -82,6 +82,26 @@ def run(tier, rng, C):
     cases = gen(tier, rng)
     v, stats = C.differential("C16", cases, py_monitor=py_monitor, finding_class=finding_class,
                               nontrivial=lambda l, o: o.startswith("ok "))
+    # wall-clock time: the text written for an accepted value (and the value read back from it) does not depend on WHEN
+    # it is written; two cases of four documents each, written at once and again after more than a second
+    slow = []
+    for i in range(2):
+        docs = []
+        for fam in ("token", "introspection", "device", "error"):
+            bm = {"token": [("access_token", "at%d" % i), ("token_type", "bearer"), ("expires_in", 3600 + i), ("refresh_token", "rt"), ("scope", "a b")],
+                  "introspection": [("active", True), ("scope", "a b"), ("exp", 1700000000 + i), ("iat", 1600000000), ("nbf", 1600000001)],
+                  "device": [("device_code", "dc"), ("user_code", "uc"), ("verification_uri" if i else "verification_url", D.URLS_VALID[0]), ("expires_in", 600 + i), ("interval", 7)],
+                  "error": [("error", "invalid_grant"), ("error_description", "d")]}[fam]
+            docs.append(C.tb(D.render(D.obj(bm), rng, plain=True).encode()))
+        slow.append("SLOWRT " + " ".join(docs))
+    for l, o in zip(slow, C.run_impl(slow)):
+        if o != "stable":
+            v += 1
+            path = C.write_replay("C16", {"property": "C16", "case": l, "impl_observation": o[:3000], "model_observation": "stable",
+                                          "clause": "serialising an accepted value again after a second of wall-clock time (and reading that text back) gives the same text"})
+            print("VIOLATION property=C16 replay=%s" % path.replace(C.VERIF + "/", ""))
+    stats["wall_clock_round_trips"] = len(slow)
+    stats["evaluations"] = stats.get("evaluations", 0) + len(slow)
     stats["rule"] = ("parsed values: model-generated documents of the four families (standard and extension types; three error families) incl. corruptions and malformed text, each accepted value serialised, read back and serialised again; "
                      "built values: token / introspection / error responses made with new()/set_*() from hostile strings, space-free scopes, lower-case extension token types, timestamps at chrono's limits; "
                      "verdict = accessors equal and text reproduced; the class scopes = Some([]) is a recorded finding (KNOWN_FINDINGS.txt); non-trivial = a value was accepted/built and round-tripped")
